@@ -303,7 +303,7 @@ type Request struct {
 	Tag       string   `json:"tag,omitempty"`
 	Pre       []PreMap `json:"pre,omitempty"`
 	Posts     []Post   `json:"posts,omitempty"`
-	Templater string   `json:"templater,omitempty"` // "" | "text"
+	Templater string   `json:"templater,omitempty"` // "" | "text" | "html" (TemplaterHTML)
 	// RespKind is what the target serves to this request: "json" | "html" (world, not pandora).
 	RespKind string `json:"resp_kind"`
 	// RespPad makes the target's answers to this request that many bytes longer (a JSON member / an HTML comment that no
